@@ -1,4 +1,5 @@
 //! Registry of per-property checks.
+pub mod c01;
 pub mod c02;
 pub mod c03;
 pub mod c04;
@@ -38,6 +39,7 @@ macro_rules! registry {
 }
 
 registry! {
+    "C01" => c01,
     "C02" => c02,
     "C03" => c03,
     "C04" => c04,
